@@ -35,7 +35,8 @@ def sq_cp(rng):
 def gen_make(rng):
     k = rng.choice(["dgm", "sub", "sub", "lin", "cp", "cp", "sqcp", "adgm", "avals", "asub"])
     if k == "dgm":
-        return dict(t="dgm", bars=rand_bars(rng, 0, 14, rng.randint(1, 4)))
+        # lazy: built with compute=False, so that a norm is the FIRST query on the object ('first': which one)
+        return dict(t="dgm", bars=rand_bars(rng, 0, 14, rng.randint(1, 4)), lazy=int(rng.random() < 0.5), first=rng.choice(["p", "sup"]))
     if k in ("sub", "lin"):
         a = dict(t="dgm", bars=rand_bars(rng, 0, 14, rng.randint(1, 4)))
         if rng.random() < 0.35:
@@ -58,8 +59,11 @@ def gen_make(rng):
         for p in bars:
             p[1] = rng.randint(p[0] + 1, a0 + (n - 1) * s)
         bars.append([a0, a0 + (n - 1) * s])
-        return dict(t="adgm", bars=bars, grid=[a0, s, n])
-    mk = lambda: dict(t="avals", vals=[[0] + [rng.randint(-3, 5) for _ in range(n - 2)] + [0] for _ in range(rng.randint(1, 2))], grid=[a0, s, n])
+        return dict(t="adgm", bars=bars, grid=[a0, s, n], lazy=int(rng.random() < 0.5), first=rng.choice(["p", "sup"]))
+    # int: the values array has an INTEGER dtype (vertical unit 1, independent of the embedding of the abscissae, so the grid step is
+    # not an integer under the fractional embeddings)
+    isint = int(rng.random() < 0.4)
+    mk = lambda: dict(t="avals", vals=[[0] + [rng.randint(-3, 5) for _ in range(n - 2)] + [0] for _ in range(rng.randint(1, 2))], grid=[a0, s, n], int=isint)
     if k == "avals":
         return mk()
     return dict(t="sub", a=mk(), b=mk())
@@ -72,7 +76,10 @@ def to_float_make(m, e):
     if "cps" in m:
         o["cps"] = [[[e.f(x), float(e.s * y)] for x, y in d] for d in m["cps"]]
     if "vals" in m:
-        o["vals"] = [[float(e.s * y) for y in row] for row in m["vals"]]
+        o["vals"] = [[int(y) for y in row] for row in m["vals"]] if m.get("int") else [[float(e.s * y) for y in row] for row in m["vals"]]
+    for kk in ("int", "lazy", "first"):
+        if m.get(kk):
+            o[kk] = m[kk]
     if "grid" in m:
         a, s, n = m["grid"]
         o.update(start=e.f(a), stop=e.f(a + (n - 1) * s), n=n)
@@ -85,7 +92,15 @@ def to_float_make(m, e):
     return o
 
 
-def decode_obj(c, e):
+def vscale(m, e):
+    """vertical unit of the object's values: 1 for integer-dtype value arrays, the embedding's scale otherwise"""
+    if m.get("int") or (m.get("t") == "sub" and m["a"].get("int")):
+        return Fraction(1)
+    return e.s
+
+
+def decode_obj(c, e, vs=None):
+    vs = e.s if vs is None else vs
     ys = []
     if c["kind"] == 1:
         depths = []
@@ -106,7 +121,7 @@ def decode_obj(c, e):
         st = (b - a) / (n - 1)
         if a.denominator != 1 or st.denominator != 1 or st <= 0:
             return None
-        rows = [[Fraction(unfl(y)) / e.s for y in row] for row in c["vals"]]
+        rows = [[Fraction(unfl(y)) / vs for y in row] for row in c["vals"]]
         ys = [y for r in rows for y in r]
         obj = [1, 2, c["hom"], int(a), int(st), n, rows]
     q = 1
@@ -155,19 +170,20 @@ def validate(ctx, makes, embs, label, nproc=12):
             continue
         if "content" not in r:
             ctx.failure({"clause": "no-result", "detail": {k: r.get(k) for k in ("raised", "msg")}}, {"kind": "norms", "make": m, "emb": e.name}); continue
-        dec = decode_obj(r["content"], e)
+        vs = vscale(m, e)
+        dec = decode_obj(r["content"], e, vs)
         if dec is None:
             ctx.extra["skipped_undecodable"] = ctx.extra.get("skipped_undecodable", 0) + 1
             continue
         obj, q = dec
         norms = []
         for p in PS:
-            norms.append([p, 1] + obs_num(r["norms"].get(str(p)), lambda v, p=p: v ** p / e.s ** (p + 1)))
+            norms.append([p, 1] + obs_num(r["norms"].get(str(p)), lambda v, p=p: v ** p / (vs ** p * e.s)))
         if m.get("squares"):
             for p in HALF:
                 kk = int(2 * p)
-                norms.append([kk, 2] + obs_num(r["norms"].get(str(p)), lambda v, kk=kk: v ** kk / e.s ** (kk + 2)))
-        cases.append(dict(kind="norms", obj=obj, q=q, lattice=1, norms=norms, sup=obs_num(r["sup"], lambda v: v / e.s))); idx.append(i)
+                norms.append([kk, 2] + obs_num(r["norms"].get(str(p)), lambda v, kk=kk: v ** kk / (vs ** kk * e.s ** 2)))
+        cases.append(dict(kind="norms", obj=obj, q=q, lattice=1, norms=norms, sup=obs_num(r["sup"], lambda v: v / vs))); idx.append(i)
     verdicts, st = tlc.run_batch("TraceNorms", cases, nproc=nproc, heap="3g")
     ctx.extra.setdefault("trace_validation_runs", []).append(dict(label=label, cases=len(cases), tlc_states=st["states"], wall_s=round(st["wall"], 1)))
     for c, v, i in zip(cases, verdicts, idx):
